@@ -100,6 +100,8 @@ def normalize(events):
         elif a == 'Files':
             out.append({'a': a, 'n': n, 'after': e['after'], 'other': len(e.get('other') or []),
                         'sizes': [[int(b), int(s)] for b, s in sorted(e['sizes'].items(), key=lambda kv: int(kv[0]))]})
+        elif a == 'Ready':
+            out.append({'a': a, 'n': n, 'ready': sorted(int(b) for b in e.get('ready') or [])})
         elif a in ('Panic', 'Fatal'):
             out.append({'a': a, 'n': n, 'op': e.get('op', ''), 'k': e.get('k', '')})
         else:
@@ -652,6 +654,9 @@ def run(pid, tier, seed, work, log, replay=None):
             ev = normalize(traces[s['id']])
             if not ev or ev[-1]['a'] != 'End':
                 raise V.Inconclusive('incomplete trace for scenario %s' % s['id'])
+            ab = [e for e in traces[s['id']] if e.get('a') == 'Abort']
+            if ab:      # a scenario that could not run decides nothing: never a silent pass
+                raise V.Inconclusive('scenario %s aborted: %s' % (s['id'], ab[0].get('err', '')))
             per[s['id']] = ev
     # ---- (d) TLC trace validation, several TLC processes side by side
     chunks = split_chunks(scen, per, 1 if replay else (8 if tier == 'quick' else 14))
